@@ -9,7 +9,11 @@ new_session / set_language / set_text / exec_session / set_text / exec_session .
 Oracle: a tiny reference interpreter written from the property statement (env = name -> value, most recent binding
 wins, names = lower-cased word tuples, leftmost-then-longest name match right of '=', assignment only on success, values
 are copied).  It reads the program TEXT; the generator only tells it which right-hand sides are opaque literals of a
-non-number kind and which lines are meant to fail."""
+non-number kind and which lines are meant to fail.
+
+There is no known-finding class any more: the three defects once listed for C03 (find_location not restarting, the
+variable left behind by a failing first assignment, `ab` / `a b` sharing one variable) are repaired in the code, and the
+CORPUS below pins each repair with fixed programs whose every line is checked against the reference interpreter."""
 from .common import *
 import re
 
@@ -18,8 +22,10 @@ DETAIL = 0
 RULE = ("programs of 2-12 lines over name pools with shared prefixes (a / a b / a b c, total / total cost, my var / my / "
         "var, ...), random letter case; line kinds: numeric assignment (literals, uses, self-reference, + - * and "
         "parentheses, negated uses), opaque assignment (percent, money, duration, date, time, unit), copy y = x, use, "
-        "failing assignment (evaluation error or parse error), failing use, blank line, use next to a plain word or "
-        "overlapping a partial match of the same name (a a b); one "
+        "failing assignment (evaluation error or parse error) of new and of existing names, also of a longer name that "
+        "would shadow an existing shorter one, failing use, blank line, use next to a plain word or overlapping a partial "
+        "match of the same name (a a b), use of a never (successfully) bound name as plain text, pairs of names whose "
+        "words concatenate to the same string (ab / a b, a bc / ab c); fixed corpus pinning the repaired defects; one "
         "exec of the whole text or a re-used session fed in 1-3 chunks; non-trivial = a later line reads a binding made "
         "by an earlier line; distinct = distinct histories")
 ASSUMPTIONS = [
@@ -36,6 +42,10 @@ FAMILIES = [
     [("my", "var"), ("my",), ("var",)],
     [("foo",), ("foo", "bar"), ("bar",), ("bar", "foo")],
     [("rate",), ("tax", "rate"), ("tax",), ("net", "tax", "rate")],
+    # names with letters outside ASCII (each letter has a one-to-one upper/lower pair): re-binding and use in another
+    # letter case must hit the same variable
+    [("ödeme",), ("ödeme", "günü"), ("ücret",), ("gümüş", "ücret")],
+    [("τιμή",), ("цена",), ("цена", "нетто")],
 ]
 COLLIDING = [
     [("ab",), ("a", "b")],
@@ -50,7 +60,7 @@ FAIL_PARSE = ["2 *", "( 1 + 2", ""]
 
 
 # ---------------------------------------------------------------- the reference interpreter
-TOK = re.compile(r"\s*(?:(\d+(?:,\d+)?)|([A-Za-z]+)|([-+*()]))")
+TOK = re.compile(r"\s*(?:(\d+(?:,\d+)?)|([^\W\d_]+)|([-+*()]))")        # words: letters of any script
 
 
 def lex(s):
@@ -220,64 +230,6 @@ def reference(lines, kinds):
     return out
 
 
-# ---------------------------------------------------------------- classification of the listed defects
-def true_find(toks, name):
-    for i in range(len(toks)):
-        if occurs_at(toks, i, name):
-            return i
-    return None
-
-
-def substitute(toks, names, find):
-    """variable/mod.rs: repeatedly replace the closest, then longest, match"""
-    toks = list(toks)
-    for _ in range(len(toks) + 1):
-        best = None
-        for n in names:
-            p = find(toks, n)
-            if p is not None and (best is None or p < best[0] or (p == best[0] and len(n) > len(best[1]))):
-                best = (p, n)
-        if best is None:
-            break
-        toks[best[0]:best[0] + len(best[1])] = [("name", best[1])]
-    return toks
-
-
-def taints(lines, kinds):
-    """first line from which each listed defect can influence the results"""
-    bound, ghosts, keys = set(), set(), {}
-    t = {"ghost": None, "collision": None}
-    for idx, (line, kind) in enumerate(zip(lines, kinds)):
-        lhs, eq, rhs = line.partition("=")
-        body = rhs if eq else line
-        toks = lex(body) or []
-        name = None
-        if eq:
-            lt = lex(lhs)
-            if lt and all(x[0] == "word" for x in lt):
-                name = tuple(x[1] for x in lt)
-        reg = bound | ghosts
-        a = substitute(toks, bound, true_find)
-        b = substitute(toks, reg, true_find)
-        if a != b and t["ghost"] is None:
-            t["ghost"] = idx
-        if name is not None:
-            key = "".join(name)
-            if key in keys and keys[key] != name and t["collision"] is None:
-                t["collision"] = idx
-            keys.setdefault(key, name)
-            failed = kind == "fail"
-            if not failed or rhs.strip() in FAIL_EVAL or any(rhs.strip().endswith(f) for f in FAIL_EVAL):
-                # the parser registers the name as soon as the right-hand side PARSES
-                if failed:
-                    if name not in bound:
-                        ghosts.add(name)
-                else:
-                    bound.add(name)
-                    ghosts.discard(name)
-    return t
-
-
 # ---------------------------------------------------------------- generator
 def recase(rng, w):
     r = rng.random()
@@ -388,6 +340,18 @@ def gen_program(rng, collide=False):
         elif r < 0.93:
             lines.append("")
             kinds.append("num")
+        elif r < 0.955:
+            # a name that is not bound (never assigned, or only by failing lines) is plain text
+            unbound = [n for n in pool if n not in known]
+            u = rng.choice(unbound) if unbound else (rng.choice(JUNK),)
+            k = rng.random()
+            if k < 0.5:
+                lines.append(show(rng, u) + " + " + lit(rng))
+            elif k < 0.75 and known:
+                lines.append(show(rng, u) + " " + show(rng, rng.choice(known)))
+            else:
+                lines.append(show(rng, u))
+            kinds.append("num")
         else:
             # a use next to a plain word; the word may be the first word of the name itself
             n = rng.choice(known)
@@ -406,7 +370,7 @@ def gen_program(rng, collide=False):
 
 def make_case(rng, lines, kinds, kind):
     sep = "\r\n" if rng.random() < 0.08 else "\n"
-    meta = {"kind": kind, "lines": lines, "kinds": kinds, "taint": taints([l.lower() for l in lines], kinds)}
+    meta = {"kind": kind, "lines": lines, "kinds": kinds}
     if kind.startswith("session"):
         cuts = sorted(rng.sample(range(1, len(lines)), min(len(lines) - 1, rng.randint(0, 2)))) if len(lines) > 1 else []
         chunks, prev = [], 0
@@ -439,11 +403,29 @@ CORPUS = [
     (["Rate = 5", "rate = Rate * 2", "rate", "RATE + Rate"], None),
     (["My Rent = 100", "my rent = 200", "My Rent * 2", "MY RENT = my rent + 1", "my Rent"], None),
     (["zeta = 1", "Zeta = 2", "ZETA = 3", "zeta + Zeta + ZETA"], None),
+    (["Ödeme = 10", "ödeme = 20", "ödeme + 1", "ÖDEME + 1", "Ödeme + 1"], None),
+    (["Gümüş Ücret = 100", "gümüş ücret = 250", "gümüş ücret * 2", "GÜMÜŞ ÜCRET + 1", "ücret = 3", "Ücret + gümüş Ücret"], None),
+    (["ödeme = 1", "ÖDEME = 2", "Ödeme = ödeme + 5", "ödeme"], None),
+    (["Τιμή = 5", "τιμή = 6", "ΤΙΜΉ + 1", "Цена = 7", "цена = 8", "ЦЕНА * 2"], None),
     # words that merely CONTAIN an operator word or resemble a keyword are ordinary name words
     (["cost = 3", "cost summary = 40", "cost + 1", "cost summary * 2"], None),
     (["start = 2", "start timestamp = 100", "start timestamp + start", "rent addition = 5", "rent addition * 2"], None),
     (["lead time = 3", "lead time * 2", "travel time = lead time + 5", "travel time"], None),
     (["timestamp = 7", "summary = 1", "timestamp + summary", "multiplying = 2", "multiplying * 3"], None),
+    # a failing assignment leaves no variable behind (formerly C03-ghost-variable): a failed multi-word assignment
+    # does not shadow the shorter existing name, a failed first assignment leaves the name plain text
+    (["a = 2", "a b = 3 hours * 2 hours", "a b + 1", "a b", "a", "A B = a + 3 hours * 2 hours", "a b * 4"],
+     ["num", "fail", "num", "num", "num", "fail", "num"]),
+    (["z = 3 hours * 2 hours", "z + 1", "z", "z = 4", "z + 1"], ["fail", "num", "num", "num", "num"]),
+    (["total = 5", "total cost = 2 *", "total cost + 1", "Total Cost = 1 hour * 2 days", "total cost", "total cost = 7",
+      "total cost + total"], ["num", "fail", "num", "fail", "num", "num", "num"]),
+    (["x = 1", "q = 3 hours * 2 hours", "y = q", "y", "x", "q + x", "x q"],
+     ["num", "fail", "num", "num", "num", "num", "num"]),
+    # names whose words concatenate to the same string are different variables (formerly C03-name-key-collision)
+    (["ab = 1", "a b = 2", "ab", "a b", "ab + a b", "a b = ab + 10", "ab", "A  B", "AB = 20", "a b"], None),
+    (["a b = 2", "ab = 1", "a b", "ab", "-ab + 2 * a b"], None),
+    (["a bc = 1", "ab c = 2", "a bc + ab c", "abc = 5", "abc + a bc", "ab c"], None),
+    (["total cost = 3", "totalcost = 4", "total cost * 10 + totalcost", "TotalCost", "Total Cost"], None),
 ]
 
 
@@ -455,7 +437,7 @@ def generate(rng, tier):
         cases.append(make_case(rng, lines, kinds, "corpus"))
         cases.append(make_case(rng, lines, kinds, "session-corpus"))
     while len(cases) < n:
-        collide = rng.random() < 0.06
+        collide = rng.random() < 0.08
         lines, kinds = gen_program(rng, collide)
         k = "session" if rng.random() < 0.3 else "exec"
         cases.append(make_case(rng, lines, kinds, k + ("-collide" if collide else "")))
@@ -533,26 +515,8 @@ def nontrivial(c, rec):
 
 
 def known_class(c, rec, verdict, known):
-    ids = {f["class"] for f in known}
-    f = first_failure(c, rec)
-    if f is None:
-        return None
-    best = None
-    for cl, idx in c["meta"]["taint"].items():
-        if idx is not None and idx <= f[0] and cl in ids and (best is None or idx < best[0]):
-            best = (idx, cl)
-    return best[1] if best else None
+    return None
 
 
 def witness_fails(f, wc, rec, header):
-    """the recorded witness still shows the recorded wrong behaviour on its last line"""
-    obs = observed_lines(rec)
-    if not obs:
-        return False
-    w = f["observed"]
-    k, v = line_value(obs[-1])
-    if "err" in w:
-        return k == "err" and v == w["err"]
-    if "out" in w:
-        return obs[-1] is not None and obs[-1].get("out") == w["out"]
     return False
